@@ -701,6 +701,9 @@ class PathEval:
             r = ("index", t, self.read_local(st, e["l"]))
         elif k == "constindex":
             r = ("index", t, ("const", "usize", (-e["offset"] if e["from_end"] else e["offset"])))
+        elif k == "subslice":
+            # the part of a slice pattern bound by `name @ ..`: [from : len - to] (from_end) or [from : to]
+            r = ("proj", t, "subslice[%d:%s%d]" % (e["from"], "-" if e["from_end"] else "", e["to"]))
         else:
             r = ("proj", t, e.get("s", k))
         mem = st["mem"]
